@@ -245,6 +245,36 @@ def directed_scenarios():
                [["edit", "var", "V1"], c01.event_actions(c1, c2), c2, {"c1": "m1"}, ["c1"]],
                [["edit", "var", "V1"], [], c2, {"c1": "m1"}, None]]
         out.append(dict(note="clone kept unused across A -> B -> A", program=c0, events=evs))
+    # names bound to functions of other packages (watched without a rule, F27): two names of one body bound to the same foreign
+    # function, one of them re-bound; and a modifier clone made before the name is re-bound
+    foreign_def = lambda was: dict(kind="plain", where="mod", foreign=True, wrapped=False, const=0, setc=None, tup=None, dflt=None, kwd=None,
+                                   lam=None, nest=None, refs=[], was=copy.deepcopy(was))
+    w0 = dict(defs={"m1": f("memento", []), "m2": f("memento", [], const=2), "h1": f("plain", [], const=3),
+                    "m3": f("memento", [["m1", "bare"], ["m1", "alias"]]), "m4": f("memento", [["m3", "bare"]])}, order=["m1", "m2", "h1", "m3", "m4"])
+    for d in w0["defs"].values():
+        d["nest"] = None
+    w1 = copy.deepcopy(w0); w1["defs"]["m1"] = foreign_def(w0["defs"]["m1"])
+    evs = [[["switch-kind", "m1", "foreign"], c01.event_actions(w0, w1), w1, {}]]
+    prev = w1
+    for tgt in ("m2", "m1", "h1", "m1"):
+        cur = copy.deepcopy(prev)
+        cur["alias_map"] = {"m1": tgt}
+        evs.append([["rebind-alias", "m1", tgt], [["exec", "mod", "a_m1 = %s\n" % tgt]], cur, {}])
+        prev = cur
+    w9 = copy.deepcopy(prev); w9["defs"]["m1"] = copy.deepcopy(w0["defs"]["m1"])
+    evs.append([["switch-kind", "m1", "memento"], c01.event_actions(prev, w9), w9, {}])
+    out.append(dict(note="two names of one body bound to one foreign function; one re-bound", program=w0, events=evs))
+    for how in ("ignore", "partial", "force_local"):
+        y0 = dict(defs={"m1": f("memento", []), "m2": f("memento", [["m1", "bare"]]), "m3": f("memento", [["m2", "bare"]])}, order=["m1", "m2", "m3"])
+        for d in y0["defs"].values():
+            d["nest"] = None
+        y1 = copy.deepcopy(y0); y1["defs"]["m1"] = foreign_def(y0["defs"]["m1"])
+        y2 = copy.deepcopy(y0)
+        evs = [[["switch-kind", "m1", "foreign"], c01.event_actions(y0, y1), y1, {}],
+               [["create-" + how, "c1", "m2"], [["clone", "c1", "m2", how]], y1, {"c1": "m2"}, ["m2", "c1"]],
+               [["switch-kind", "m1", "memento"], c01.event_actions(y1, y2), y2, {"c1": "m2"}, ["c1"]],
+               [["switch-kind", "m1", "memento"], [], y2, {"c1": "m2"}, None]]
+        out.append(dict(note="clone made while a name is bound to a foreign function, asked first after the name is re-bound", program=y0, events=evs))
     # a name that was undefined is defined with the value None (module variable and module attribute of the helper module)
     n0 = dict(defs={"m1": f("memento", [["U1", "bare"]]), "m2": f("memento", [["m1", "bare"]])}, order=["m1", "m2"], late=["U1"])
     n1 = copy.deepcopy(n0); n1["defs"]["U1"] = dict(kind="var", where="mod", value=None); n1["order"] = ["U1", "m1", "m2"]
